@@ -247,6 +247,8 @@ class Kernel:
 
     def _handover(self, t):
         """Called in task thread t: give the baton to the scheduler and wait for it."""
+        if self.aborting:
+            raise SimTimeoutAbort()
         self.current = None
         self.main_sem.release()
         t.sem.acquire()
